@@ -377,16 +377,22 @@ func (vc *VC) gcIntrinsic(fr *Frame, inst *ssa.Function, args []SV) ([]SV, bool)
 		}
 		return []SV{scalar(and(cs...))}, true
 	case "gcTail":
+		vc.chET = chanElem(ptype(0))
 		return []SV{scalar(vc.chTail(args[0].L[0]))}, true
 	case "gcHead":
+		vc.chET = chanElem(ptype(0))
 		return []SV{scalar(vc.chHead(args[0].L[0]))}, true
 	case "gcCap":
+		vc.chET = chanElem(ptype(0))
 		return []SV{scalar(vc.chCap(args[0].L[0]))}, true
 	case "gcClosed":
+		vc.chET = chanElem(ptype(0))
 		return []SV{scalar(vc.chClosed(args[0].L[0]))}, true
 	case "gcAwaited":
-		return []SV{scalar(sel(vc.chGet("CH:awaited", "(Array Int Bool)"), args[0].L[0]))}, true
+		vc.chET = chanElem(ptype(0))
+		return []SV{scalar(sel(vc.chGet(vc.chKey("CH:awaited"), "(Array Int Bool)"), args[0].L[0]))}, true
 	case "gcAt":
+		vc.chET = chanElem(ptype(0))
 		return []SV{vc.chAt(chanElem(ptype(0)), args[0].L[0], args[1].L[0])}, true
 	case "gcSliceAt":
 		return []SV{scalar(and(eq(args[0].L[0], args[1].L[0]), eq(args[0].L[1], vc.ix(args[1].L[1], args[2].L[0]))))}, true
@@ -466,7 +472,7 @@ func (vc *VC) builtin(fr *Frame, b *ssa.Builtin, c *ssa.CallCommon, args []SV) S
 			vc.declareUF("strlen", "(GoString) (_ BitVec 64)")
 			return scalar("(strlen " + args[0].L[0] + ")")
 		case *types.Chan:
-			return scalar(vc.chanLen(args[0].L[0]))
+			return scalar(vc.chanLenT(args[0].L[0], chanElem(c.Args[0].Type())))
 		case *types.Pointer:
 			return scalar(bvLitI(t.Elem().Underlying().(*types.Array).Len(), 64))
 		case *types.Array:
@@ -486,7 +492,7 @@ func (vc *VC) builtin(fr *Frame, b *ssa.Builtin, c *ssa.CallCommon, args []SV) S
 		vc.mapWrite(mi, args[0].L[0], args[1].L[0], nil, false)
 		return SV{}
 	case "close":
-		vc.chanClose(fr, args[0].L[0])
+		vc.chanClose(fr, args[0].L[0], chanElem(c.Args[0].Type()))
 		return SV{}
 	case "panic":
 		vc.panicReached(fr, "panic")
@@ -913,10 +919,16 @@ func (vc *VC) yieldBefore(fi *FuncInfo, cargs []SV, cname string) {
 	}
 	// locks this goroutine holds protect their state from interference
 	self := SV{L: []string{owner.L[0]}}
+	before := vc.st.clone()
 	for _, l := range vc.guardLocs(li, self) {
 		vc.havocLoc(l)
 	}
 	g := vc.evalClause(li.GoName, li.Pkg, []SV{self}, vc.st, vc.entry)
 	vc.assume(g)
+	if li.RelyGo != "" {
+		// what the other goroutines are relied upon to respect (old = before the yield)
+		vc.assume(vc.evalClause(li.RelyGo, li.Pkg, []SV{self}, vc.st, before))
+		vc.noteAssumption("rely on " + li.Type + ": " + li.Rely)
+	}
 	vc.noteAssumption("yields: other goroutines may change lock-guarded state between the atomic steps of this function (subject to the lock invariants)")
 }
